@@ -206,9 +206,13 @@ func (c *Cache) Exec(ctx context.Context, qCtx *query_context.Context, next sequ
 		qCtx.SetResponse(cachedResp)
 	}
 
+	// A response that is in qCtx already (our own hit, or what a plugin in
+	// front of this cache, e.g. another cache, has set) was not produced for
+	// msgKey by the rest of the sequence. Do not store it under msgKey.
+	rBefore := qCtx.R()
 	err := next.ExecNext(ctx, qCtx)
 
-	if r := qCtx.R(); r != nil && cachedResp != r { // pointer compare. r is not cachedResp
+	if r := qCtx.R(); r != nil && rBefore != r { // pointer compare. r is a new response
 		saveRespToCache(msgKey, r, c.backend, c.args.LazyCacheTTL)
 		c.updatedKey.Add(1)
 	}
